@@ -194,6 +194,7 @@ VARIABLES c, go
 vars == <<c, go>>
 
 Nums(S)  == {Num(n) : n \in S}
+NumsWithNegative == {-2, 0, 1, 3}                         \* cfg: NumsS <- NumsWithNegative (a cfg file cannot write -2)
 AlphaS   == {None, NaN, Str(1)} \cup Nums(NumsS)           \* Scale data
 AlphaI   == {None, Str(1), Str(2)} \cup Nums(NumsI)        \* Impute data (two strings so that a mode exists)
 ColsOf(A, n) == [1..n -> A]
